@@ -32,6 +32,15 @@ CHECKS["C11"] = dict(engine="govm", technique="stateless model checking: close p
 CHECKS["C10"] = dict(engine="govm", technique="explicit matrix enumeration through the real Protocol.Invoke + stateless model checking of the real TarsServer (TCP and UDP) under deviation-bounded schedules, virtual time",
              text="(a) every cell of version{TARS,TUP,JSON} x packet type x function{ok,error,*tars.Error,ping,unknown,void} x own-timeout{none,ample,elapsed in queue} x ids through the real Protocol.Invoke with the real generated AdminF dispatcher; (b) the real TarsServer over in-memory TCP and UDP, pool 0/1/2, handle timeout 0/T, handler durations 0/T-e/T/T+e, 2-4 pipelined requests on 1-2 connections, all schedules within 2 (3) deviations from three default policies. Responses decoded by an independent codec: exactly one per two-way request, none per one-way, id/version/packet type echoed, error code and message, queue-timeout code, timeout error for over-long handlers.",
              note="TUP responses have no iRet member: the result code is looked for in the status map (STATUS_RESULT_CODE/STATUS_RESULT_DESC).", ref="§5 C10")
+CHECKS["C02"] = dict(engine="enum", technique="bounded-exhaustive enumeration of (type, tag, value) triples (complete for 8/16-bit types x 256 tags, all 2^32 float32 patterns in thorough, boundary lattices otherwise) against an independent reference encoder",
+             text="Every value of bool/int8/uint8/int16/uint16 x all 256 tags, integer/float/string lattices x 256 tags, and every narrower encoding read by every wider reader: bytes written by codec.Buffer must equal the reference encoder, the value read back must be bit-identical, the reader must stop exactly at the end of the field (in-package offset accessor + sentinel field).",
+             note="Reference encoder written from the wire rules (DESIGN Appendix B), independent of codec.go; 64-bit and string spaces covered by lattices, not exhausted.", ref="§5 C02")
+CHECKS["C06"] = dict(engine="enum", technique="bounded-exhaustive mutation enumeration (every prefix, every length inflation, every inadmissible wire-type substitution at every nesting level) of reference-encoded baselines, judged against an independent strict schema-directed decoder",
+             text="For every baseline encoding (24 framework structs as struct and as block, primitive fields, byte-vector fields, TUP attribute sets; all-default / all-non-default / <=k-member deviations): every proper prefix, every embedded length inflated beyond the remaining bytes, every field replaced by each well-formed field of an inadmissible wire type. The implementation must fail or return exactly the value of the complete fields present.",
+             note="Strict reference decoder (verif/ref) is the oracle; lengths that would make TarsGo allocate more than ~2 MB are left to C05.", ref="§5 C06")
+CHECKS["C16"] = dict(engine="enum", technique="bounded-exhaustive program enumeration: generated IDL corpus through the real tars2go + go build + static conformance; every token/byte-level mutation and every short token string through the real lexer/parser/generator under a deterministic token budget; regeneration diff of the checked-in bindings",
+             text="(a) corpus of all member kinds x require/optional x default x tag classes, containers to depth 2, arrays, enums/consts/interfaces/includes: tars2go must exit 0, the output must compile and match the schema; (b) every byte/token prefix, single-token deletion/duplication/replacement/insertion of small files, all token strings <=3(4) in five contexts, all byte strings <=2 and character-class strings <=4: the tool must terminate with a diagnostic (token budget detects hangs deterministically), cross-checked on the real binary; (c) the framework's own bindings regenerated and compared.",
+             note="Dynamic codec/call behaviour of the generated code is the business of C01/C03/C04; constructs the tool rejects by design with a diagnostic are not generated as valid.", ref="§5 C16")
 NOT_YET = {}
 ALL = ["C%02d" % i for i in range(1, 21)]
 
